@@ -423,7 +423,7 @@ type frec struct {
 	Digest string
 }
 
-var dfaultCompared, dfaultFlushFails, readFaultsCompared int
+var dfaultCompared, dfaultFlushFails, readFaultsCompared, dfaultHistOK, dfaultHistNotOK int
 
 // DFModelMismatch runs DFaultRun.dfrun (DStore with failing Flush calls, DiskFault.flush_fault) on the
 // recorded calls and compares every observation and, after every failed or completed Flush, FlushRevert and
@@ -474,6 +474,15 @@ func DFModelMismatch(recs []frec) *Mismatch {
 		}
 		if strings.HasPrefix(line, "ERR") {
 			return &Mismatch{Kind: "model-runner", Observed: line}
+		}
+		if strings.HasPrefix(line, "fhistory_ok ") {
+			// the hypotheses of theorem c07_failed_flush_invisible_anywhere, evaluated on this faulted history
+			if line == "fhistory_ok true" {
+				dfaultHistOK++
+			} else {
+				dfaultHistNotOK++
+			}
+			continue
 		}
 		lines = append(lines, line)
 	}
